@@ -82,7 +82,13 @@ def main():
             shutil.copy("/repo/Cargo.lock", f"{VAL}/w{w}/Cargo.lock")
     chunks = [ids[i::NW] for i in range(NW)]
     def work(w):
-        return [validate((s, w)) for s in chunks[w]]
+        out = []
+        for s in chunks[w]:
+            try:
+                out.append(validate((s, w)))
+            except Exception as e:
+                out.append({"id": s, "apply": "EXCEPTION %r" % e})
+        return out
     with ThreadPoolExecutor(NW) as ex:
         allres = [r for rs in ex.map(work, range(NW)) for r in rs]
     for r in sorted(allres, key=lambda r: r["id"]):
